@@ -848,7 +848,7 @@ class InstanceWriteProvider(BaseProvider):
             True if path exists in instance store or path is Null.
             False if path exists and is not in instance store.
         """
-        if not path:
+        if path is None:
             return True
 
         try:
